@@ -76,27 +76,28 @@ pub fn run(args: &Args) {
             let pos = (rng.range(1, 5), rng.range(1, 6));
             let mut op = rng.below(20);
             if op == 19 {
-                // a save that fails after its sheets were serialised (a chart whose series refers to a sheet that no longer
-                // exists makes the chart writer panic): whatever that save registered must not show up in later saves
-                let mut doomed = books[bi].clone();
-                let r = guard(|| {
-                    let _ = doomed.new_sheet("Doomed");
-                    let last = doomed.get_sheet_count() - 1;
-                    doomed.get_sheet_mut(&last).unwrap().get_cell_mut((1, 1)).set_value_string(format!("doomed-{}-{}", k, opi));
+                // a save that fails after its sheets were serialised: a lazily opened workbook whose materialised sheet holds a
+                // chart over a sheet that is still unloaded makes the chart writer panic (recorded as KF-C11-chart-cache-unloaded-sheet).
+                // Whatever that save registered must not show up in later saves on this thread.
+                let r = guard(|| -> Result<Vec<u8>, String> {
+                    let mut src = new_file();
+                    src.new_sheet("Second").map_err(|e| e.to_string())?;
                     let mut from = umya_spreadsheet::structs::drawing::spreadsheet::MarkerType::default();
                     let mut to = umya_spreadsheet::structs::drawing::spreadsheet::MarkerType::default();
                     from.set_coordinate("C3");
                     to.set_coordinate("F9");
                     let mut chart = Chart::default();
-                    chart.new_chart(ChartType::LineChart, from, to, vec!["Doomed!$A$1:$A$3"]);
-                    doomed.get_sheet_mut(&0).unwrap().add_chart(chart);
+                    chart.new_chart(ChartType::LineChart, from, to, vec!["Second!$A$1:$A$3"]);
+                    src.get_sheet_mut(&0).unwrap().add_chart(chart);
+                    let bytes = save(&src, false)?;
+                    let mut doomed = reader::xlsx::read_reader(std::io::Cursor::new(bytes), false).map_err(|e| format!("{:?}", e))?;
                     doomed.get_sheet_mut(&0).unwrap().get_cell_mut((6, 6)).set_value_string(format!("doomed-text-{}-{}", k, opi));
-                    doomed.remove_sheet(last).unwrap();
                     save(&doomed, false)
                 });
+                let _ = bi;
                 let failed = !matches!(r, Ok(Ok(_)));
                 o.count(if failed { "saves.failing-on-purpose" } else { "saves.meant-to-fail-but-succeeded" }, 1);
-                hist.push(format!("a save of a scratch clone of book{} {}", bi, if failed { "FAILED (as intended)" } else { "succeeded" }));
+                hist.push(format!("a save of a scratch workbook {}", if failed { "FAILED (as intended)" } else { "succeeded" }));
                 continue;
             }
             if op >= 15 {
@@ -167,6 +168,14 @@ pub fn run(args: &Args) {
                         lazies.push(l);
                         hist.push(format!("book{} = clone of book{}", books.len() - 1, bi));
                     }
+                }
+                13 => {
+                    // materialise every sheet of this workbook object (its clones keep their raw sheets)
+                    books[bi].read_sheet_collection();
+                    if let Some(l) = lazies[bi].as_mut() {
+                        l.loaded.iter_mut().for_each(|x| *x = true);
+                    }
+                    hist.push(format!("book{} read_sheet_collection", bi));
                 }
                 14 => {
                     // reload lazily and continue: sheets stay unloaded until touched
